@@ -31,6 +31,7 @@ from . import (
     TypeOfCode,
     Varname,
 )
+from ._args import args_to_varnames
 from ._constants import constant_key
 from ._line_mapping import LineMapping
 
@@ -179,7 +180,7 @@ def blocks_to_bytes(
 
     # If we have a function, set the initial varnames to be the args
     if isinstance(block_type, Function):
-        for i, k in enumerate(block_type.args.parameters.keys()):
+        for i, k in enumerate(args_to_varnames(block_type.args)):
             varnames[i] = k
 
     # If it is a function block, we start with the docstring
